@@ -31,6 +31,7 @@ type Result[O any] struct {
 	Outcomes   []string    // labels for distinct-outcome statistics
 	Next       []O         // operations enabled in the final state (within bounds)
 	Checks     int         // number of individual oracle comparisons performed
+	Counters   map[string]int // additional measured counters (crash points, probes, ...)
 }
 
 // Stats accumulates what a search covered.
@@ -45,6 +46,7 @@ type Stats struct {
 	Outcomes    map[string]int `json:"outcomes"`
 	LevelStates []int          `json:"states_per_depth"`
 	Samples     []any          `json:"-"`
+	Counters    map[string]int `json:"counters,omitempty"`
 	Wall        float64        `json:"wall_s"`
 }
 
@@ -62,6 +64,12 @@ func (s *Stats) Merge(o *Stats) {
 	for k, v := range o.Outcomes {
 		s.Outcomes[k] += v
 	}
+	if s.Counters == nil {
+		s.Counters = map[string]int{}
+	}
+	for k, v := range o.Counters {
+		s.Counters[k] += v
+	}
 	s.Samples = append(s.Samples, o.Samples...)
 }
 
@@ -72,7 +80,7 @@ func Search[O any](run func(hist []O) Result[O], maxDepth int, deadline time.Tim
 	sampleEvery int) (*Stats, []Violation) {
 
 	start := time.Now()
-	st := &Stats{Outcomes: map[string]int{}, Exhaustive: true}
+	st := &Stats{Outcomes: map[string]int{}, Counters: map[string]int{}, Exhaustive: true}
 	var violations []Violation
 	seen := map[[16]byte]struct{}{}
 	keyOf := func(k string) [16]byte {
@@ -164,6 +172,9 @@ func Search[O any](run func(hist []O) Result[O], maxDepth int, deadline time.Tim
 			r := results[i]
 			st.Transitions++
 			st.Checks += r.Checks
+			for k, v := range r.Counters {
+				st.Counters[k] += v
+			}
 			for _, o := range r.Outcomes {
 				st.Outcomes[o]++
 			}
